@@ -103,6 +103,7 @@ func main() {
 	if *timeout > 0 {
 		optTimeoutMs = *timeout
 	}
+	optRepo = *repo
 	switch cmd {
 	case "check":
 		os.Exit(runCheck(prop, *repo, *verifDir, *tier, *only, *workers, *verbose, *noEvidence))
